@@ -438,6 +438,8 @@ def env_family(seed, n, maxlen=3, budget=6000):
         var = f"BPAF_VERIF_V{len(out) % 3}"
         it = leaf("e0", kind, arity, shorts=["-e"], longs=["--env0"], vt=vt, env=var,
                   guard=(kind == "arg" and rnd.random() < 0.3))
+        if len(out) % 4 == 3:
+            it["env2"] = "BPAF_VERIF_X"         # a second variable, consulted when the first one is not set
         others = [rnd.choice([sw("o1", "-o"), ar("o1", "opt", "int", "-o", env="BPAF_VERIF_W"), rf("o1", "count", "-o")])]
         named = [it] + others if rnd.random() < 0.6 else others + [it]
         shape = len(out) % 3
